@@ -59,7 +59,7 @@ def _stmts(block, ctx):
         if k == "if":
             yield from _stmts(s["t"], ctx)
             yield from _stmts(s["e"], ctx)
-        elif k in ("while", "for", "block"):
+        elif k in ("while", "for", "forstep", "forin", "block"):
             yield from _stmts(s["b"], dict(ctx, loop=ctx.get("loop") or k != "block"))
         elif k == "match":
             for a in s["arms"]:
@@ -84,7 +84,7 @@ def _stmt_exprs(s):
         roots.append((s, "c", {}))
     elif k == "while":
         roots.append((s, "c", {"loopcond": True}))
-    elif k == "for":
+    elif k in ("for", "forstep"):
         roots.append((s, "lo", {}))
         roots.append((s, "hi", {}))
     elif k == "match":
